@@ -62,6 +62,11 @@ def extElems : List (Nat × Nat × Nat × Nat) :=
   [(9999, 1, 1, 3), (9999, 2, 2, 14), (9999, 3, 3, 20), (9999, 4, 4, 13),
    (9999, 5, 5, 11), (9999, 6, 6, 8), (9999, 7, 7, 12), (31337, 100, 100, 1)]
 
+/-- the FieldType index a type name resolves to through the generated `FieldTypes` map; a missing
+name gives 0 (`Unknown`), as the Go map lookup does on both load paths -/
+def typeIndex (n : String) : Nat :=
+  ((Gen.InfoModelTbl.fieldTypes.find? (·.1 = n)).map (·.2)).getD 0
+
 /-- `InfoModel[ElementKey{ent,id}]` → (FieldID, FieldType) -/
 def lookupElem (ent id : Nat) : Option (Nat × Nat) :=
   match Gen.InfoModelTbl.infoModelTbl.find? (fun e => e.1 = ent ∧ e.2.1 = id) with
